@@ -191,5 +191,5 @@ def run(ctx):
     ctx.cov["exhaustive"] = True
     ctx.assumptions += ["decoders are called as the stream layer calls them (fresh buffer-pool context, IoBuffer over the received bytes)",
                         "allocation is measured with runtime/metrics around the call; bound 1 MiB + 16 bytes per supplied byte",
-                        "a decoder call that has not returned after 40 s or keeps growing the heap beyond 200 MB is a loop",
+                        "a decoder call that has not returned after 25 s or keeps growing the heap beyond 200 MB is a loop",
                         "e2e: a peer that saw neither bytes nor a close for 8 s calls its connection silent; gauges get 10 s to settle"]
